@@ -36,6 +36,38 @@ def sum_term(arr, n):
     return lsum(arr, n)
 
 
+def filtered_sum(ex, comp, st, fr):
+    """-> [(value, state)] for sum(<elt> for x in <list> if <conds>) with pure elt / conds, else None"""
+    g = comp.generators[0]
+    if not all(_is_pure_expr(c) for c in g.ifs) or not _is_pure_expr(comp.elt):
+        return None
+    out = []
+    for itv, s1 in ex.ev_iter(g.iter, st, fr):
+        if isinstance(itv, Exc):
+            out.append((itv, s1))
+            continue
+        if itv[0] != 'list':
+            return None
+        h = s1.heap
+        l = itv[1]
+        n = h.llen(l.t)
+        j = z3.Int(f'fs_j!{next(sym._counter)}')
+        sp = s1.fork()
+        sp.pure = True
+        b = {}
+        sp.bound = s1.bound + [b]
+        ex.assign_bound(g.target, h.lget(l.t, l.ty.elem, j), b)
+        cond = z3.And(*[truth(ex.ev1(c, sp, fr), h) for c in g.ifs])
+        eltv = ex.ev1(comp.elt, sp, fr)
+        if eltv.kind not in ('int', 'real') or eltv.ty.ext or eltv.ty.opt:
+            return None
+        arr = sym.defarray(s1, j, z3.If(cond, to_real(eltv.t), z3.RealVal(0)), 'fsum')
+        ex.uses_lsum = True
+        ex.notes.add('A3: sum over a filtered generator = finite sum with 0 for the skipped elements')
+        out.append((vreal(sum_term(arr, n)), s1))
+    return out
+
+
 def eval_args(ex, e, st, fr):
     """-> [((pos list, kw dict) | Exc, state)]"""
     exprs, shape = [], []
@@ -93,6 +125,14 @@ def call(ex, e, st, fr):
         g = e.args[0]
         gen = ast.GeneratorExp(elt=g.elt, generators=g.generators)
         return [(vbool(ex.specs.quantify(ex, gen, st, fr, f.id == 'all')), st)]
+    if isinstance(f, ast.Name) and f.id == 'sum' and len(e.args) == 1 and not e.keywords and \
+            isinstance(e.args[0], (ast.GeneratorExp, ast.ListComp)) and len(e.args[0].generators) == 1 and \
+            e.args[0].generators[0].ifs and 'sum' not in st.loc:
+        # sum(e(x) for x in L if c(x)) in the code, e and c read-only: the finite sum over L of (e(x) if c(x) else 0)
+        # (A3: a filtered generator contributes nothing for the elements it skips)
+        r = filtered_sum(ex, e.args[0], st, fr)
+        if r is not None:
+            return r
     if isinstance(f, ast.Name) and f.id == 'super':
         raise Unsupported('bare super()')
     # ---- receiver first, then arguments
